@@ -348,7 +348,12 @@ Modify(p, q, sref, lit, newnode, ops, faults, faults2) ==
      /\ nseq' = [nseq EXCEPT ![p] = IF SeqNos = {} THEN q ELSE @]
      /\ \/ Retrans(e)
         \/ ~IsRetrans(e) /\ i = 0 /\ NotFound(e, MT_MODRSP)
-        \/ /\ ~IsRetrans(e) /\ i # 0
+        \* a Node ID IE that cannot be decoded: the handler returns before any IE is carried out, and without a response
+        \/ /\ ~IsRetrans(e) /\ i # 0 /\ newnode = "!bad"
+           /\ rx' = RxAdd(e, <<>>)
+           /\ Commit(e, <<>>, <<>>, slots, free, rx', tx, txseq, nodes)
+           /\ UNCHANGED <<nodes, slots, free, tx, txseq, dp, tok, rts>>
+        \/ /\ ~IsRetrans(e) /\ i # 0 /\ newnode # "!bad"
            /\ LET s == slots[i]
                   \* PfcpServer.UpdateNodeID: the whole node object is re-keyed
                   nds == IF newnode = "" \/ newnode = s.node THEN nodes
